@@ -430,7 +430,10 @@ def clause(op):
 
 
 def run(pid, tier):
-    rep = vlib.Report(pid, tier)
+    return constcheck.guarded_run(_run, pid, tier)
+
+
+def _run(rep, pid, tier):
     info = constcheck.translate(rep)
     if info is None:
         return rep.finish()
